@@ -148,7 +148,11 @@ def run(chk, tier, replay=None):
                                       "again: schedule-dependent output (C04's subject), not interference", {"specs": sp})
                 chk.bump("differences_not_reproduced")
                 continue
-            chk.violation("C17|output-differs|%s" % k, "; ".join(bad)[:600], {"specs": sp})
+            # a session that restricts use_cpu_flags is named in the key: the dispatch tables are process globals that
+            # every svt_av1_enc_init rewrites (known finding), which is a different defect from shared encoder state
+            cpuf = all(",flags=" in base[j] for j in confirmed)
+            chk.violation("C17|output-differs|%s%s" % (k, "|only-sessions-with-use_cpu_flags" if cpuf else ""),
+                          "; ".join(bad)[:600], {"specs": sp})
         elif any(kk.startswith("asan") and kk not in solo_keys and not core.match_known("C11", "C11|" + kk, chk.known)
                  for kk, _ in r.san):
             # memory errors that the sessions do not produce when they run alone
